@@ -17,7 +17,7 @@ def json_model(g, n):
     """a model in the JSON fragment"""
     attr_names = g.names(4, ("plain", "space", "nonascii", "quote"))
     m = g.model(n, kinds=KINDS, name_classes=ALL_NAMES, ctc_depth=3,
-                attrs=dict(names=attr_names, values=VALUES))
+                attrs=dict(names=attr_names, values=VALUES), wide=True)
     if m["ctcs"] and g.rng.random() < 0.3:
         # the same formula under another name, and a case variant
         name, node = m["ctcs"][0]
